@@ -40,6 +40,8 @@ def jobs(tier):
     J.append(dict(scenario="repair", graph="MIXED1", start=0, n=2 if q else 4))
     J.append(dict(scenario="random", graph="GC2", seeds=[0, 7]))
     J.append(dict(scenario="random", graph="MIXED1", seeds=[0, 2021]))
+    J.append(dict(scenario="variation", graph="GC2", start=1, n=3))
+    J.append(dict(scenario="variation", graph="MIXED1", start=0, n=2))
     J.append(dict(scenario="verbose", graph="GC2", start=1))
     J.append(dict(scenario="verbose", graph="MIXED1", start=0))
     return J
@@ -53,10 +55,24 @@ def bounds(tier):
 
 
 def _dummy_env():
-    return {"acc": None, "msg": None, "table": None, "start": 0, "L": 1, "strand": "", "bits_list": [], "mask": None, "k": 1, "filter": None, "lm": {}, "root": 0, "seeds": [0]}
+    return {"acc": None, "msg": None, "table": None, "start": 0, "L": 1, "strand": "", "bits_list": [], "mask": None, "k": 1, "filter": None, "lm": {}, "root": 0, "seeds": [0],
+            "acc_b": None, "filter_b": None, "mask3": None, "mask1": None, "probe": ""}
 
 
 GRAPHS = {"GC2": scenarios.GC2, "MIXED1": scenarios.MIXED1}
+MOTIFS_A, MOTIFS_B = ["G", "AC"], ["T", "CA"]
+MASK3 = [1 if (v * 7 + 3) % 5 else 0 for v in range(64)]
+
+
+def graph_b(g):
+    """same shape as g, one arc removed (the first arc of the first live vertex)."""
+    out = [list(r) for r in g]
+    for v in range(len(out)):
+        for j in range(4):
+            if out[v][j] >= 0 and sum(1 for x in out[v] if x >= 0) >= 2:
+                out[v][j] = -1
+                return out
+    return out
 
 
 def build_env(e, L, cfg, fresh_names=False):
@@ -73,13 +89,13 @@ def build_env(e, L, cfg, fresh_names=False):
         return symnp.array(x, dtype=dtype) if dtype else symnp.array(x)
     table = [[(v + j) % 4 for j in range(4)] for v in range(N)]
     lm = {v: [x for x in g[v] if x >= 0] for v in range(N) if any(x >= 0 for x in g[v])}
-    if sc in ("coding", "repair"):
+    if sc in ("coding", "repair", "variation"):
         e.assume(oracles.bits_constraints(bits))
         e.assume(z3.And([z3.Or([c == ord(a) for a in "ACGT"]) for c in scodes]) if scodes else z3.BoolVal(True))
-    sym_bits = sc == "coding"
-    sym_strand = sc in ("coding", "repair")
+    sym_bits = sc in ("coding", "variation")
+    sym_strand = sc in ("coding", "repair", "variation")
 
-    def make():
+    def make(L=L):
         env = {"acc": A(g), "table": A(table), "start": cfg.get("start", 0), "L": len(bits), "k": k, "lm": {a: list(b) for a, b in lm.items()},
                "root": [v for v in range(N) if any(x >= 0 for x in g[v])][0], "seeds": cfg.get("seeds", [0])}
         if sym_bits:
@@ -99,7 +115,13 @@ def build_env(e, L, cfg, fresh_names=False):
         else:
             mk = [1 if any(x >= 0 for x in g[v]) else 0 for v in range(N)]
             env["mask"] = A(mk, int)
-            env["filter"] = L.LocalBioFilter(observed_length=k, gc_range=[0.0, 1.0] if k == 1 else [0.5, 0.5])
+            env["filter"] = L.LocalBioFilter(observed_length=k, gc_range=[0.0, 1.0] if k == 1 else [0.5, 0.5], undesired_motifs=MOTIFS_A[:k])
+        if sc == "variation":
+            env["acc_b"] = A(graph_b(g))
+            env["filter_b"] = L.LocalBioFilter(observed_length=k, gc_range=[0.0, 1.0] if k == 1 else [0.5, 0.5], undesired_motifs=MOTIFS_B[:k])
+            env["mask3"] = A(MASK3, int)
+            env["mask1"] = A([1, 1, 0, 1], int)
+            env["probe"] = "ACGTTG"[:k + 2]
         return env
 
     def spec(m):
@@ -124,7 +146,13 @@ def build_env(e, L, cfg, fresh_names=False):
             sp["filter"] = ["filter", dict(observed_length=kk, max_homopolymer_runs=1 if kk > 1 else None, gc_range=[0.0, 0.75])]
         else:
             sp["mask"] = arr([1 if any(x >= 0 for x in g[v]) else 0 for v in range(N)])
-            sp["filter"] = ["filter", dict(observed_length=k, gc_range=[0.0, 1.0] if k == 1 else [0.5, 0.5])]
+            sp["filter"] = ["filter", dict(observed_length=k, gc_range=[0.0, 1.0] if k == 1 else [0.5, 0.5], undesired_motifs=MOTIFS_A[:k])]
+        if sc == "variation":
+            sp["acc_b"] = arr(graph_b(g))
+            sp["filter_b"] = ["filter", dict(observed_length=k, gc_range=[0.0, 1.0] if k == 1 else [0.5, 0.5], undesired_motifs=MOTIFS_B[:k])]
+            sp["mask3"] = arr(MASK3)
+            sp["mask1"] = arr([1, 1, 0, 1])
+            sp["probe"] = ["str", "ACGTTG"[:k + 2]]
         return sp
     return make, spec
 
@@ -202,9 +230,10 @@ def module_state(L):
     return out
 
 
-def run_history(e, L, cfg, env, isolate, make=None, Lfactory=None):
+def run_history(e, L, cfg, env, isolate, make=None, Lfactory=None, make_for=None, snaps=None):
     out = {}
     last = None
+    kept = None
     steps = scenarios.SCENARIOS[cfg["scenario"]](env)
     for label, fn, a, kw in steps:
         if fn is None:
@@ -215,18 +244,45 @@ def run_history(e, L, cfg, env, isolate, make=None, Lfactory=None):
             elif label == "DRAW":
                 if not isolate:
                     L.numpy.random.random(5)
+            elif label == "KEEP-LAST":
+                kept = (last, snapshot(last))
+            elif label == "CHECK-KEPT":
+                if not isolate and kept is not None:
+                    out["CHECK-KEPT"] = ("ok", (snapshot(kept[0]), kept[1]))
+            elif label == "EDIT-ACC-A":
+                a_ = env["acc"]          # a caller thinning the shared graph in place (as remove_nasty_arc does)
+                if snaps is not None:
+                    out["ARG-acc-before-edit"] = ("ok", (snapshot(a_), snaps["acc"]))
+                for v_ in range(a_.shape[0]):
+                    row_ = [x for x in a_._row(v_).elems()]
+                    if sum(1 for x in row_ if (not core.is_sym(x)) and x >= 0) >= 2:
+                        j_ = [j for j, x in enumerate(row_) if x >= 0][-1]
+                        a_[v_, j_] = -1
+                        break
+                if snaps is not None:
+                    snaps["acc"] = snapshot(a_)
             elif label.startswith("SEED-"):
                 L.numpy.random.seed(int(label[5:]))
             continue
         LL = L
         if isolate:
             LL = Lfactory()
-            env2 = make()
+            env2 = make_for(LL)
+            if label.endswith("-edited"):
+                a_ = env2["acc"]
+                for v_ in range(a_.shape[0]):
+                    row_ = [x for x in a_._row(v_).elems()]
+                    if sum(1 for x in row_ if (not core.is_sym(x)) and x >= 0) >= 2:
+                        j_ = [j for j, x in enumerate(row_) if x >= 0][-1]
+                        a_[v_, j_] = -1
+                        break
             a, kw = [(x[2], x[3]) for x in scenarios.SCENARIOS[cfg["scenario"]](env2) if x[0] == label][0]
-            if label.startswith("cap-r") or label.endswith("cap2"):
-                pass
         try:
-            r = getattr(LL, fn)(*a, **kw)
+            if "." in fn:
+                cls, meth = fn.split(".")
+                r = getattr(getattr(LL, cls), meth)(*a, **kw)
+            else:
+                r = getattr(LL, fn)(*a, **kw)
             out[label] = ("ok", snapshot(r))
             last = r
         except core.Abort:
@@ -247,7 +303,7 @@ def body(e, L, cfg):
         env = make()
         snaps = {n: snapshot(v) for n, v in env.items() if not n.startswith("_")}
         before = module_state(L)
-        hist = run_history(e, L, cfg, env, False)
+        hist = run_history(e, L, cfg, env, False, snaps=snaps)
 
         def cex(m):
             return {"kind": "history", "scenario": cfg["scenario"], "env": spec(m)}
@@ -270,8 +326,10 @@ def body(e, L, cfg):
         # 3. every call equals the same call in isolation (fresh modules, fresh arguments)
         kw = make_loader(cfg)
         kw.pop("_key", None)
-        iso = run_history(e, L, cfg, make(), True, make=make, Lfactory=lambda: loader.load(**kw))
+        iso = run_history(e, L, cfg, make(), True, make=make, Lfactory=lambda: loader.load(**kw), make_for=lambda LL: make(LL))
         for label in hist:
+            if label not in iso:
+                continue
             h, i = hist[label], iso[label]
             if h[0] != i[0]:
                 r, m = e.check()
@@ -282,6 +340,16 @@ def body(e, L, cfg):
                 return {"status": "viol", "why": "call %s returns something else in the history than in isolation" % label, "cex": cex(m)}
             if r != "unsat":
                 return {"status": "inconclusive", "why": "solver unknown"}
+        if "ARG-acc-before-edit" in hist:
+            now, then = hist.pop("ARG-acc-before-edit")[1]
+            r, m = e.check(z3.Not(eq_term(now, then)))
+            if r == "sat":
+                return {"status": "viol", "why": "shared argument 'acc' was modified by the history", "cex": cex(m)}
+        if "CHECK-KEPT" in hist:
+            now, then = hist["CHECK-KEPT"][1]
+            r, m = e.check(z3.Not(eq_term(now, then)))
+            if r == "sat":
+                return {"status": "viol", "why": "a result handed out by an earlier call was rewritten by a later call", "cex": cex(m)}
         if cfg["scenario"] == "verbose":
             for label in hist:
                 if label.startswith("verbose-"):
